@@ -36,7 +36,7 @@ def one(ctx, i):
     prof = dict(p_continue=0.0, p_reset=0.0, p_selflock=0.0, p_speed_load=0.0, p_pos_load=0.0, p_time_load=0.0, p_pwm_preset=0.0, p_ic_zero=0.3, p_struct=0.2,
                 p_overload=0.3, p_big_overload=0.0, max_stages=3 if ctx.tier == 'quick' else 5)
     spec = GEN.gen_scenario(rng, prof, force_selflock=False)
-    spec['load'].update(B=0.0, C=0.0, S=0.0, W=0.0, step_t=None, step_A=0.0)
+    spec['load'].update(B=0.0, C=0.0, S=0.0, W=0.0, step_t=None, step_A=0.0, P=0.0)
     nums = GEN.chain_numbers(spec)
     q = GEN.qsi
     m = spec['motor']
@@ -190,7 +190,7 @@ def coast(ctx, i):
     prof = dict(p_continue=0.0, p_reset=0.0, p_selflock=0.0, p_speed_load=0.0, p_pos_load=0.0, p_time_load=0.0, p_pwm_preset=0.0, p_ic_zero=0.0, p_struct=0.2,
                 p_overload=0.0, p_big_overload=0.0, max_stages=3, p_currents=1.0, p_worm=0.1)
     spec = GEN.gen_scenario(rng, prof, force_selflock=False)
-    spec['load'].update(B=0.0, C=0.0, S=0.0, W=0.0, step_t=None, step_A=0.0)
+    spec['load'].update(B=0.0, C=0.0, S=0.0, W=0.0, step_t=None, step_A=0.0, P=0.0)
     nums = GEN.chain_numbers(spec)
     q = GEN.qsi
     TL = spec['load']['A']
